@@ -400,6 +400,67 @@ def random_ansi(rng, image_only=True):
     return "%s:%s:%s" % (col(), col(), "".join(rng.choice("01") if rng.random() < 0.5 else "0" for _ in range(8)))
 
 
+def display_property_oracle(ctx, rep, cases, parsed):
+    """On the implementation alone: for every style that `Style::from_str` (no default) returned,
+    `parse(display(style))` renders the same — equal ansi style and omit / syntax flags; for a `raw` style only
+    `raw` must survive (contract: a raw style emits the input's own escape sequences and no site paints with its
+    colours or attributes, so `Display` deliberately prints just `raw`)."""
+    seen, todo = set(), []
+    for c, r in zip(cases, parsed):
+        kind, d, tc, s, deco = c
+        if kind != "plain" or d != "-" or deco != "-" or not r.startswith("ok "):
+            continue
+        f = r.split(" ")
+        if len(f) != 4 or (f[1], f[2]) in seen:
+            continue
+        seen.add((f[1], f[2]))
+        todo.append((s, tc, f[1], f[2]))
+    # make sure omit / raw / hidden combined with colours and attributes are present
+    extra = ["omit bold 220 22", "ul omit 45", "omit", "raw red", "raw bold 17 #aabbcc", "hidden red", "omit hidden italic 3 4",
+             "omit syntax 22", "omit normal"]
+    res = ctx.hook().ask(["style.parse plain - 1 %s -" % hx(x) for x in extra])
+    for x, r in zip(extra, res):
+        if r.startswith("ok "):
+            f = r.split(" ")
+            todo.append((x, 1, f[1], f[2]))
+    disp = ctx.hook().ask(["style.display %s %s none" % (a, fl) for _, _, a, fl in todo])
+    req, keep = [], []
+    for (s, tc, a, fl), d in zip(todo, disp):
+        if not d.startswith("ok x"):
+            _viol(rep, "display:panics-or-fails", "Display for Style fails on a parsed style", dict(style=s, dump=a + " " + fl, got=d))
+            continue
+        tc2 = 1 if (",") in a else tc
+        req.append("style.parse plain - %d %s -" % (tc2, d[3:]))
+        keep.append((s, tc2, a, fl, unhx(d[3:]).decode("utf-8", "replace")))
+    back = [canon_fatal(r) for r in ask_hook_chunked(ctx, req)]
+    for (s, tc, a, fl, shown), b in zip(keep, back):
+        rep.case(key=("display-property", a, fl), nontrivial=a != "-:-:00000000" or fl != "0000",
+                 sample=dict(op="display-property", style=s, reported=shown, reparsed=b))
+        rep.count("display-property:" + ("raw" if fl[2] == "1" else "omit" if fl[1] == "1" else "plain"))
+        ok = b.startswith("ok ")
+        if ok:
+            f = b.split(" ")
+            if fl[2] == "1":
+                ok = f[2][2] == "1"
+            else:
+                ok = f[1] == a and f[2][1:] == fl[1:]
+        if not ok:
+            lost = ""
+            if b.startswith("ok "):
+                fa = b.split(" ")[1].split(":")
+                oa = a.split(":")
+                names = ["bold", "dim", "italic", "ul", "blink", "reverse", "hidden", "strike"]
+                l = [n for n, x, y in zip(names, oa[2], fa[2]) if x == "1" and y == "0"]
+                if oa[0] != fa[0]:
+                    l.append("fg")
+                if oa[1] != fa[1]:
+                    l.append("bg")
+                lost = ",".join(l)
+            _viol(rep, "display:round-trip-differs:" + (lost + "-lost" if lost else "other"),
+                  "Style::from_str(Display(style)) does not render like the style (hook level, implementation only)",
+                  dict(kind="display-property", style=s, true_color=tc, parsed=a + " " + fl, reported=shown, reparsed=b))
+
+
 def corr_display_paint(ctx, rep, mdl, parsed):
     rng = ctx.rng
     styles = []
@@ -797,9 +858,18 @@ def show_config_round_trip(ctx, rep):
         cand = pool[:n_attr] + [gen_style(rng, 4) for _ in range(ctx.n(8, 60))]
         if o == SHOWCFG_OPTS[0]:
             cand = [a + " red" for a in ATTR_WORDS] + cand
+        # `omit` suppresses only the commit / file / hunk-header element (and not under --color-only); everywhere
+        # else the text is still painted with the rest of the style, so the reported value must keep it.
+        # `raw` emits the input's own sequences: the reported value is just `raw` and must render the same.
+        if o not in ("commit-style", "file-style", "hunk-header-style"):
+            cand = ["omit bold 220 22", "ul omit 45", "omit " + gen_style(rng, 3)] + cand
+            if o in ("minus-style", "plus-style", "zero-style"):
+                cand = ["raw", "raw bold 17 52"] + cand
         for s in cand:
             w = oracle_parse(s)
-            if w == "error" or w["raw"] or w["omit"]:
+            if w == "error":
+                continue
+            if (w["raw"] or w["omit"]) and o in ("commit-style", "file-style", "hunk-header-style"):
                 continue
             if o == "commit-style" and not s.strip():
                 continue
@@ -1184,6 +1254,7 @@ def run(ctx, rep):
         cases, impl = corr_parse(ctx, rep, mdl, orc)
         corr_color(ctx, rep, mdl, orc)
         corr_display_paint(ctx, rep, mdl, impl)
+        display_property_oracle(ctx, rep, cases, impl)
         corr_config(ctx, rep, mdl, orc)
     invariance_oracle(ctx, rep, orc)
     binary_oracle(ctx, rep)
